@@ -64,6 +64,7 @@ Expected(sh) ==
 \* o: [check, build, wrap \in {"ok", "err", "panic"}, panics: Seq(STRING), built, wrapped]
 StructOK(sh, o) ==
     /\ o.check # "panic"
+    /\ o.next = "ok"        \* the sound declaration checked right afterwards is accepted, whatever this one was
     /\ o.check = "ok" =>
           /\ o.panics = <<>> /\ o.build = "ok" /\ o.wrap = "ok"
           /\ Sane(sh)                      \* otherwise "exactly the tagged fields" cannot hold
